@@ -310,6 +310,37 @@ func reqWith(name string, qtype uint16, cd bool, opts []optT, hasOpt bool, versi
 	return m
 }
 
+// rawQuery hand-assembles "x.c19.test. A" with one OPT carrying opts verbatim.
+func rawQuery(opts []optT) []byte {
+	b := []byte{0, 1, 1, 0, 0, 1, 0, 0, 0, 0, 0, 1}
+	for _, l := range []string{"x", "c19", "test"} {
+		b = append(b, byte(len(l)))
+		b = append(b, l...)
+	}
+	b = append(b, 0, 0, 1, 0, 1)
+	var rd []byte
+	for _, o := range opts {
+		var d []byte
+		code := o.code
+		switch {
+		case o.isECS:
+			code = dns.EDNS0SUBNET
+			d = append([]byte{byte(o.fam >> 8), byte(o.fam), o.mask, o.scope}, o.addr...)
+		case o.code == dns.EDNS0COOKIE, o.code == dns.EDNS0EDE:
+			d = vlib.UnHex(o.data)
+		case o.code == dns.EDNS0NSID, o.code == dns.EDNS0TCPKEEPALIVE:
+		case o.code == dns.EDNS0PADDING:
+			d = make([]byte, vlib.Atoi(o.data))
+		default:
+			d = vlib.UnHex(o.data)
+		}
+		rd = append(rd, byte(code>>8), byte(code), byte(len(d)>>8), byte(len(d)))
+		rd = append(rd, d...)
+	}
+	b = append(b, 0, 0, 41, 0x04, 0xd0, 0, 0, 0, 0, byte(len(rd)>>8), byte(len(rd)))
+	return append(b, rd...)
+}
+
 func fail(sig, format string, a ...any) string {
 	return "FAIL sig=" + sig + " " + fmt.Sprintf(format, a...)
 }
@@ -325,6 +356,7 @@ type ansRec struct {
 	declared   int // SCOPE the authority declared (> 0)
 	limit      int // min(forwarded source bits, configured floor)
 	eff        int // min(declared, limit): the audience the answer may reach
+	viaRefresh bool // the answer was obtained by a background refresh
 }
 
 type stubT struct {
@@ -334,8 +366,10 @@ type stubT struct {
 	up                            []optT
 	upHas                         bool
 	ans                           int
+	kind                          string   // a | nd | nx: positive answer, NODATA, NXDOMAIN (SOA serial = answer id)
 	refresh                       bool     // answering background refreshes: one answer id each
 	refreshSeen                   []string // OPT options of each refresh query that arrived
+	refreshOpts                   [][]dns.EDNS0
 }
 
 func ansIP(id int) net.IP { return net.IPv4(10, byte(id>>16), byte(id>>8), byte(id)).To4() }
@@ -348,6 +382,11 @@ func idOfMsg(m *dns.Msg) int {
 		if a, ok := rr.(*dns.A); ok {
 			ip := a.A.To4()
 			return int(ip[1])<<16 | int(ip[2])<<8 | int(ip[3])
+		}
+	}
+	for _, rr := range m.Ns {
+		if soa, ok := rr.(*dns.SOA); ok {
+			return int(soa.Serial)
 		}
 	}
 	return -1
@@ -412,7 +451,16 @@ func (s *stubT) ServeDNS(ctx context.Context, ch *middleware.Chain) {
 		m := new(dns.Msg)
 		m.SetReply(req)
 		m.RecursionAvailable = true
-		m.Answer = []dns.RR{&dns.A{Hdr: dns.RR_Header{Name: q.Name, Rrtype: dns.TypeA, Class: dns.ClassINET, Ttl: s.ttl}, A: ansIP(s.ans)}}
+		if s.kind == "nd" || s.kind == "nx" {
+			zone := "c19.test."
+			m.Ns = []dns.RR{&dns.SOA{Hdr: dns.RR_Header{Name: zone, Rrtype: dns.TypeSOA, Class: dns.ClassINET, Ttl: s.ttl},
+				Ns: "ns1." + zone, Mbox: "hostmaster." + zone, Serial: uint32(s.ans), Refresh: 3600, Retry: 600, Expire: 86400, Minttl: s.ttl}}
+			if s.kind == "nx" {
+				m.Rcode = dns.RcodeNameError
+			}
+		} else {
+			m.Answer = []dns.RR{&dns.A{Hdr: dns.RR_Header{Name: q.Name, Rrtype: dns.TypeA, Class: dns.ClassINET, Ttl: s.ttl}, A: ansIP(s.ans)}}
+		}
 		if s.upHas {
 			o := new(dns.OPT)
 			o.Hdr.Name = "."
@@ -424,6 +472,7 @@ func (s *stubT) ServeDNS(ctx context.Context, ch *middleware.Chain) {
 		_ = ch.Writer.WriteMsg(m)
 		if s.refresh {
 			s.refreshSeen = append(s.refreshSeen, renderOpts(s.seen, true))
+			s.refreshOpts = append(s.refreshOpts, s.seen)
 			s.ans++
 		}
 	}
@@ -552,7 +601,7 @@ func pipeQ(f []string) vlib.Res {
 	uopts, uhas := parseOpts(f[6])
 	ans := vlib.Atoi(f[7])
 	st := p.st
-	st.ttl, st.up, st.upHas, st.ans = uint32(ttl), uopts, uhas, ans
+	st.ttl, st.up, st.upHas, st.ans, st.kind = uint32(ttl), uopts, uhas, ans, f[8]
 	before := st.ansCalls
 	req := reqWith(fmt.Sprintf("q%d.c19.test.", qid), dns.TypeA, cd, copts, chas, 0, false)
 	reply := p.run(c, proto, req)
@@ -597,6 +646,9 @@ func pipeQ(f []string) vlib.Res {
 		}
 		if rec.eff > 0 {
 			tags = strings.TrimPrefix(tags+",nt,stored-scoped", ",")
+			if f[8] != "a" {
+				tags += ",stored-scoped-denial"
+			}
 		}
 		impl = fmt.Sprintf("up=%s ans=%d ropt=%s st=%s ttl=%s pf=%s", renderOpts(st.seen, true), served, ropt, stS, ttlS, pfS)
 	} else {
@@ -604,6 +656,8 @@ func pipeQ(f []string) vlib.Res {
 		servedTTL := 0
 		if len(reply.Answer) > 0 {
 			servedTTL = int(reply.Answer[0].Header().Ttl)
+		} else if len(reply.Ns) > 0 {
+			servedTTL = int(reply.Ns[0].Header().Ttl)
 		}
 		if v := checkServed(p.spec, p.cap, rec, c, copts, qid, cd, servedTTL); v != "" {
 			or = append(or, v)
@@ -832,6 +886,38 @@ func exec(op string) vlib.Res {
 			or = "ok"
 		}
 		return vlib.Res{Impl: impl, Oracle: or}
+	case "ecs wire":
+		// ecs wire <adm> <opts>: the strict packet parser's facts for a raw query whose
+		// OPT carries exactly these options (addresses verbatim, host bits included)
+		opts, _ := parseOpts(a[1])
+		r := new(middleware.Request)
+		adm := r.ParseWire(rawQuery(opts), time.Now(), nil)
+		sentECS := false
+		for _, o := range opts {
+			if o.isECS {
+				sentECS = true
+			}
+		}
+		if !adm {
+			impl := "refused"
+			if a[0] == "t" {
+				impl = "refused-now" // the op line recorded an admission
+			}
+			return vlib.Res{Impl: impl, Oracle: "-"}
+		}
+		impl := fmt.Sprintf("ecs=%s nsid=%s ka=%s", vlib.B(r.HasECS()), vlib.B(r.HasNSID()), vlib.B(r.HasTCPKeepalive()))
+		if a[0] != "t" {
+			impl = "admitted-now " + impl
+		}
+		or := "ok"
+		if r.HasECS() != sentECS {
+			or = fail("wire/admitted-packet/subnet-option-fact-wrong", "client sent subnet option=%v parser recorded=%v", sentECS, r.HasECS())
+		}
+		tags := ""
+		if sentECS {
+			tags = "nt"
+		}
+		return vlib.Res{Impl: impl, Oracle: or, Tags: tags}
 	case "ecs readscope":
 		opts, has := parseOpts(a[0])
 		m := new(dns.Msg)
@@ -893,13 +979,42 @@ func exec(op string) vlib.Res {
 		// pipe refresh <ttl> <upopts> <ans>: run every queued background refresh
 		// (the worker's processPrefetch, synchronously); the authority answers the
 		// i-th one with answer id ans+i
-		st := pipe.st
+		p := pipe
+		st := p.st
 		uo, uh := parseOpts(a[1])
-		st.ttl, st.up, st.upHas, st.ans = uint32(vlib.Atoi(a[0])), uo, uh, vlib.Atoi(a[2])
-		st.refresh, st.refreshSeen = true, nil
-		n := cache.VerifC19RunPrefetch(pipe.ca)
+		base := vlib.Atoi(a[2])
+		st.ttl, st.up, st.upHas, st.ans, st.kind = uint32(vlib.Atoi(a[0])), uo, uh, base, "a"
+		st.refresh, st.refreshSeen, st.refreshOpts = true, nil, nil
+		items := cache.VerifC19RunPrefetch(p.ca)
 		st.refresh = false
-		return vlib.Res{Impl: fmt.Sprintf("n=%d up=%s", n, strings.Join(st.refreshSeen, "|")), Oracle: "-", Tags: "nt"}
+		or := ""
+		for i, it := range items {
+			if i >= len(st.refreshOpts) {
+				break
+			}
+			// what went upstream on a refresh is judged like any other upstream query,
+			// against the options of the queued request copy, client = internal writer
+			sent, _ := parseOpts(renderOpts(it.Opts, true))
+			if v := checkForwarded(p.spec, parseClient("4:7f0000ff"), true, sent, st.refreshOpts[i]); v != "" && or == "" {
+				or = strings.Replace(v, "sig=upstream/", "sig=refresh/upstream/", 1)
+			}
+			lbl, _, _ := strings.Cut(it.Q.Name, ".")
+			rec := newRec(p.spec, vlib.Atoi(lbl[1:]), it.CD, uo, uh, st.refreshOpts[i])
+			rec.viaRefresh = true
+			p.ledger[base+i] = rec
+			if e := p.findEntry(base + i); e != nil && rec.wellformed && rec.eff > 0 && !e.Scope.IsValid() && or == "" {
+				or = fail("refresh/scoped-answer-filed-under-shared-key", "%s refreshed with subnet option %s; authority scope /%d stored shared",
+					it.Q.Name, renderOpts(st.refreshOpts[i], true), rec.declared)
+			}
+		}
+		if or == "" {
+			or = "ok"
+		}
+		tags := ""
+		if len(items) > 0 {
+			tags = "nt,refresh-run"
+		}
+		return vlib.Res{Impl: fmt.Sprintf("n=%d up=%s", len(items), strings.Join(st.refreshSeen, "|")), Oracle: or, Tags: tags}
 	case "pipe pfq":
 		n, scoped := cache.VerifC19DrainPrefetch(pipe.ca)
 		or := "ok"
